@@ -2989,7 +2989,7 @@ fn unify_all(tys: &[(Type, Position)]) -> Result<Type, (Type, Type, Position)> {
 /// (String, Top) -> Top
 /// (Int, String) -> return None
 /// ```
-fn unify(ty_1: &Type, ty_2: &Type) -> Option<Type> {
+pub(crate) fn unify(ty_1: &Type, ty_2: &Type) -> Option<Type> {
     if matches!(ty_1, Type::Any) || matches!(ty_2, Type::Any) {
         return Some(Type::Any);
     }
